@@ -5,7 +5,7 @@
     exception class, [code] the faultcode when the class is a
     spyne.model.fault.Fault (the empty text otherwise).  An [except] clause is
     a list of classes; whether it catches is decided with the subclass table
-    GENERATED from the live class hierarchy (Gen/Pipeline.v: [exn_bases]). *)
+    GENERATED from the live class hierarchy (Gen/ReqPipe.v: [exn_bases]). *)
 From SpyneV Require Export Base.Prelude.
 
 Inductive pyexn :=
